@@ -598,6 +598,140 @@ Proof.
 Qed.
 
 (* ====================================================================================================
+   Stream lengths.  From any state inside an object, for ANY stream data that has no line "endstream":
+   the lines   stream / data... / endstream / filler... / <k> 0 obj / <digits>   are copied through unchanged
+   except that the digits line becomes the exact number of data bytes (minus one per "%QDF: ignore_newline"
+   line, not below zero), and `offset` stays the number of bytes written.
+   ==================================================================================================== *)
+Ltac fqnorm := repeat (progress (unfold fq_emit, fq_set_st, fq_set_pos, fq_set_offset, fq_set_obj, fq_set_stream, fq_set_xr, fq_set_os, fq_set_out;
+  cbn [q_st q_lineno q_offset q_last_offset q_last_obj q_xref q_stream_start q_stream_length q_xref_offset
+       q_f1 q_f2 q_xref_size q_ostream q_ooffs q_odisc q_oidx q_oid q_oext q_out])).
+
+Definition fq_dec_len (len : Z) (mid : list (list N)) : Z :=
+  fold_left (fun a l => if fq_eqb l fqk_ignore_newline then (if 0 <? a then a - 1 else a) else a) mid len.
+
+Lemma fq_in_stream_loop : forall data lineno offset last_offset last_obj xref sstart slen xoff f1 f2 xsize ostream ooffs odisc oidx oid oext out,
+  Forall (fun l => fq_eqb l fqk_endstream_nl = false) data ->
+  exists ln lo,
+    fq_run (mkfq Fq_in_stream lineno offset last_offset last_obj xref sstart slen xoff f1 f2 xsize ostream ooffs odisc oidx oid oext out) data
+    = inl (mkfq Fq_in_stream ln (offset + fq_len (concat data)) lo last_obj xref sstart slen xoff f1 f2 xsize ostream ooffs odisc oidx oid oext (rev data ++ out))
+    /\ (data = [] -> lo = last_offset) /\ (data <> [] -> offset <= lo).
+Proof.
+  induction data as [|l t IH]; intros lineno offset last_offset last_obj xref sstart slen xoff f1 f2 xsize ostream ooffs odisc oidx oid oext out Hall.
+  - exists lineno, last_offset. cbn [fq_run concat rev app]. unfold fq_len at 1. cbn [length]. rewrite Z.add_0_r.
+    split; [reflexivity|]. split; [reflexivity | intros H; contradiction].
+  - inversion Hall as [|? ? Hl Ht]; subst.
+    cbn [fq_run]. unfold fq_step. fqsimp. rewrite Hl. fqnorm.
+    destruct (IH (lineno + 1) (offset + fq_len l) offset last_obj xref sstart slen xoff f1 f2 xsize ostream ooffs odisc oidx oid oext (l :: out) Ht)
+      as [ln [lo [Hrun [He Hne]]]].
+    exists ln, lo. rewrite Hrun. split.
+    + cbn [concat rev]. rewrite fq_len_app, <- app_assoc, Z.add_assoc. reflexivity.
+    + split; [intros H; discriminate|]. intros _. pose proof (fq_len_nonneg l).
+      destruct t as [|x t']; [rewrite (He eq_refl); lia | specialize (Hne ltac:(discriminate)); lia].
+Qed.
+
+Lemma fq_after_stream_loop : forall mid lineno offset last_offset last_obj xref sstart slen xoff f1 f2 xsize ostream ooffs odisc oidx oid oext out,
+  Forall (fun l => fq_match_n_0_obj l = None) mid ->
+  exists ln lo,
+    fq_run (mkfq Fq_after_stream lineno offset last_offset last_obj xref sstart slen xoff f1 f2 xsize ostream ooffs odisc oidx oid oext out) mid
+    = inl (mkfq Fq_after_stream ln (offset + fq_len (concat mid)) lo last_obj xref sstart (fq_dec_len slen mid) xoff f1 f2 xsize ostream ooffs odisc oidx oid oext (rev mid ++ out)).
+Proof.
+  induction mid as [|l t IH]; intros lineno offset last_offset last_obj xref sstart slen xoff f1 f2 xsize ostream ooffs odisc oidx oid oext out Hall.
+  - exists lineno, last_offset. cbn [fq_run concat rev app fq_dec_len fold_left]. unfold fq_len at 1. cbn [length]. rewrite Z.add_0_r. reflexivity.
+  - inversion Hall as [|? ? Hl Ht]; subst.
+    cbn [fq_run]. unfold fq_step. fqsimp. unfold fq_dec_len. cbn [fold_left]. fold (fq_dec_len (if fq_eqb l fqk_ignore_newline then if 0 <? slen then slen - 1 else slen else slen) t).
+    destruct (fq_eqb l fqk_ignore_newline).
+    + destruct (0 <? slen); fqnorm.
+      * destruct (IH (lineno + 1) (offset + fq_len l) offset last_obj xref sstart (slen - 1) xoff f1 f2 xsize ostream ooffs odisc oidx oid oext (l :: out) Ht) as [ln [lo Hrun]].
+        exists ln, lo. rewrite Hrun. cbn [concat rev]. rewrite fq_len_app, <- app_assoc, Z.add_assoc. reflexivity.
+      * destruct (IH (lineno + 1) (offset + fq_len l) offset last_obj xref sstart slen xoff f1 f2 xsize ostream ooffs odisc oidx oid oext (l :: out) Ht) as [ln [lo Hrun]].
+        exists ln, lo. rewrite Hrun. cbn [concat rev]. rewrite fq_len_app, <- app_assoc, Z.add_assoc. reflexivity.
+    + rewrite Hl. fqnorm.
+      destruct (IH (lineno + 1) (offset + fq_len l) offset last_obj xref sstart slen xoff f1 f2 xsize ostream ooffs odisc oidx oid oext (l :: out) Ht) as [ln [lo Hrun]].
+      exists ln, lo. rewrite Hrun. cbn [concat rev]. rewrite fq_len_app, <- app_assoc, Z.add_assoc. reflexivity.
+Qed.
+
+Lemma fq_run_app : forall a b s, fq_run s (a ++ b) = match fq_run s a with inl s1 => fq_run s1 b | inr e => inr e end.
+Proof.
+  induction a as [|l t IH]; intros b s; [reflexivity|].
+  cbn [app fq_run]. destruct (fq_step s l); [apply IH | reflexivity].
+Qed.
+
+Lemma fq_step_stream_kw : forall lineno offset last_offset last_obj xref sstart slen xoff f1 f2 xsize ostream ooffs odisc oidx oid oext out,
+  fq_step (mkfq Fq_in_obj lineno offset last_offset last_obj xref sstart slen xoff f1 f2 xsize ostream ooffs odisc oidx oid oext out) fqk_stream_nl
+  = inl (mkfq Fq_in_stream (lineno + 1) (offset + fq_len fqk_stream_nl) offset last_obj xref (offset + fq_len fqk_stream_nl) slen xoff f1 f2 xsize
+              ostream ooffs odisc oidx oid oext (fqk_stream_nl :: out)).
+Proof. intros. unfold fq_step. fqsimp. change (fq_eqb fqk_stream_nl fqk_stream_nl) with true. cbv iota. reflexivity. Qed.
+
+Lemma fq_step_endstream_kw : forall lineno offset last_offset last_obj xref sstart slen xoff f1 f2 xsize ostream ooffs odisc oidx oid oext out,
+  fq_step (mkfq Fq_in_stream lineno offset last_offset last_obj xref sstart slen xoff f1 f2 xsize ostream ooffs odisc oidx oid oext out) fqk_endstream_nl
+  = inl (mkfq Fq_after_stream (lineno + 1) (offset + fq_len fqk_endstream_nl) offset last_obj xref sstart (offset - sstart) xoff f1 f2 xsize
+              ostream ooffs odisc oidx oid oext (fqk_endstream_nl :: out)).
+Proof. intros. unfold fq_step. fqsimp. change (fq_eqb fqk_endstream_nl fqk_endstream_nl) with true. cbv iota. reflexivity. Qed.
+
+Lemma fq_step_length_header : forall hdr d lineno offset last_offset last_obj xref sstart slen xoff f1 f2 xsize ostream ooffs odisc oidx oid oext out,
+  fq_match_n_0_obj hdr = Some d -> Z.of_N (dec_value d) = last_obj + 1 -> last_obj + 1 <= 2147483647 ->
+  fq_step (mkfq Fq_after_stream lineno offset last_offset last_obj xref sstart slen xoff f1 f2 xsize ostream ooffs odisc oidx oid oext out) hdr
+  = inl (mkfq Fq_in_length (lineno + 1) (offset + fq_len hdr) offset (last_obj + 1) (FqX1 offset :: xref) sstart slen xoff f1 f2 xsize
+              ostream ooffs odisc oidx oid oext (hdr :: out)).
+Proof.
+  intros hdr d lineno offset last_offset last_obj xref sstart slen xoff f1 f2 xsize ostream ooffs odisc oidx oid oext out Hh Hv Hmax.
+  unfold fq_step. fqsimp.
+  assert (Hni : fq_eqb hdr fqk_ignore_newline = false).
+  { destruct (fq_eqb hdr fqk_ignore_newline) eqn:E; [|reflexivity]. apply fq_eqb_eq in E. subst hdr. vm_compute in Hh. discriminate. }
+  rewrite Hni, Hh. unfold fq_check_obj_id. fqsimp. rewrite Hv.
+  destruct (2147483647 <? last_obj + 1) eqn:E1; [apply Z.ltb_lt in E1; lia|].
+  rewrite Z.eqb_refl. reflexivity.
+Qed.
+
+Lemma fq_step_length_number : forall numline lineno offset last_offset last_obj xref sstart slen xoff f1 f2 xsize ostream ooffs odisc oidx oid oext out,
+  fq_match_num numline = true ->
+  fq_step (mkfq Fq_in_length lineno offset last_offset last_obj xref sstart slen xoff f1 f2 xsize ostream ooffs odisc oidx oid oext out) numline
+  = inl (mkfq Fq_top (lineno + 1) (offset + fq_len numline - fq_len numline + fq_len (fq_dec slen ++ fqk_nl)) offset last_obj xref sstart slen xoff f1 f2 xsize
+              ostream ooffs odisc oidx oid oext ((fq_dec slen ++ fqk_nl) :: out)).
+Proof. intros. unfold fq_step. fqsimp. rewrite H. reflexivity. Qed.
+
+(* stream / data / endstream / filler / "<k> 0 obj" / digits : copied through, the digits line becomes the exact
+   number of data bytes (minus one per "%QDF: ignore_newline" line), offset bookkeeping stays exact, and the
+   length object is recorded at its position *)
+Lemma fixqdf_stream_length_lemma : forall s data mid hdr d numline,
+  q_st s = Fq_in_obj ->
+  Forall (fun l => fq_eqb l fqk_endstream_nl = false) data ->
+  Forall (fun l => fq_match_n_0_obj l = None) mid ->
+  fq_match_n_0_obj hdr = Some d -> Z.of_N (dec_value d) = q_last_obj s + 1 -> q_last_obj s + 1 <= 2147483647 ->
+  fq_match_num numline = true ->
+  exists s',
+    fq_run s ([fqk_stream_nl] ++ data ++ [fqk_endstream_nl] ++ mid ++ [hdr; numline]) = inl s' /\
+    q_st s' = Fq_top /\
+    fq_flatten (q_out s') = fq_flatten (q_out s) ++ fqk_stream_nl ++ concat data ++ fqk_endstream_nl ++ concat mid ++ hdr
+                             ++ fq_dec (fq_dec_len (fq_len (concat data)) mid) ++ fqk_nl /\
+    q_offset s' - q_offset s = fq_len (fq_flatten (q_out s')) - fq_len (fq_flatten (q_out s)) /\
+    q_xref s' = FqX1 (q_offset s + fq_len (fqk_stream_nl ++ concat data ++ fqk_endstream_nl ++ concat mid)) :: q_xref s.
+Proof.
+  intros s data mid hdr d numline Hst Hdata Hmid Hhdr Hv Hmax Hnum.
+  destruct s as [st lineno offset last_offset last_obj xref sstart slen xoff f1 f2 xsize ostream ooffs odisc oidx oid oext out].
+  cbn [q_st q_last_obj q_out q_offset q_xref] in *. subst st.
+  cbn [app]. cbn [fq_run]. rewrite fq_step_stream_kw.
+  rewrite fq_run_app.
+  destruct (fq_in_stream_loop data (lineno + 1) (offset + fq_len fqk_stream_nl) offset last_obj xref (offset + fq_len fqk_stream_nl) slen
+              xoff f1 f2 xsize ostream ooffs odisc oidx oid oext (fqk_stream_nl :: out) Hdata) as [ln [lo [Hrun _]]].
+  rewrite Hrun. cbn [app]. cbn [fq_run]. rewrite fq_step_endstream_kw.
+  rewrite fq_run_app.
+  match goal with |- context [fq_run (mkfq Fq_after_stream ?a ?b ?c ?d ?e ?f ?g ?h ?i ?j ?k ?l ?m ?n ?o ?p ?q ?r) mid] =>
+    destruct (fq_after_stream_loop mid a b c d e f g h i j k l m n o p q r Hmid) as [ln2 [lo2 Hrun2]] end.
+  rewrite Hrun2. cbn [fq_run].
+  rewrite (fq_step_length_header hdr d) by assumption.
+  rewrite fq_step_length_number by assumption.
+  eexists. split; [reflexivity|]. cbn [q_st q_last_obj q_out q_offset q_xref].
+  replace (offset + fq_len fqk_stream_nl + fq_len (concat data) - (offset + fq_len fqk_stream_nl)) with (fq_len (concat data)) by lia.
+  split; [reflexivity|]. split.
+  - repeat (rewrite fq_flatten_cons || rewrite fq_flatten_app || rewrite fq_flatten_rev_lines). rewrite <- !app_assoc. reflexivity.
+  - split.
+    + repeat (rewrite fq_flatten_cons || rewrite fq_flatten_app || rewrite fq_flatten_rev_lines). rewrite !fq_len_app. lia.
+    + rewrite !fq_len_app. f_equal. f_equal. lia.
+Qed.
+
+(* ====================================================================================================
    Findings, machine-checked on real `qpdf --qdf` output (File/C17Witness.v; the harness re-creates these files
    with the qpdf under test on every run and compares the bytes).
 
